@@ -125,34 +125,34 @@ Definition encode_mgs (I : mgs_inst) (k : nat) : milp :=
 Inductive mstatus := MgOptimal | MgInfeasible | MgOther.
 Definition is_opt (s : mstatus) : bool := match s with MgOptimal => true | _ => false end.
 
-Definition mgs_range (lowerbound n_initial : nat) : list nat :=
+Definition mgsm_range (lowerbound n_initial : nat) : list nat :=
   seq lowerbound (Nat.max (lowerbound + 1) (n_initial + 2) - lowerbound).
 
-Fixpoint mgs_loop_on (status : nat -> mstatus) (ks : list nat) : list nat * option nat :=
+Fixpoint mgsm_loop_on (status : nat -> mstatus) (ks : list nat) : list nat * option nat :=
   match ks with
   | [] => ([], None)
   | k :: r => match status k with
               | MgOptimal => ([k], Some k)
-              | MgInfeasible => let '(tried, res) := mgs_loop_on status r in (k :: tried, res)
+              | MgInfeasible => let '(tried, res) := mgsm_loop_on status r in (k :: tried, res)
               | MgOther => ([k], None)
               end
   end.
 
-Definition mgs_loop (status : nat -> mstatus) (lowerbound n_initial : nat) : list nat * option nat :=
-  mgs_loop_on status (mgs_range lowerbound n_initial).
+Definition mgsm_loop (status : nat -> mstatus) (lowerbound n_initial : nat) : list nat * option nat :=
+  mgsm_loop_on status (mgsm_range lowerbound n_initial).
 
 (* the loop as it was before the fixes 03febc7 / 2966290 (kept for the _refuted witnesses of the old
    behaviour): range(lowerbound, max(lowerbound + 1, len(initial_numbers))), every non-optimal status moves on *)
-Definition mgs_range_old (lowerbound n_initial : nat) : list nat :=
+Definition mgsm_range_old (lowerbound n_initial : nat) : list nat :=
   seq lowerbound (Nat.max (lowerbound + 1) n_initial - lowerbound).
-Fixpoint mgs_loop_on_old (status : nat -> mstatus) (ks : list nat) : list nat * option nat :=
+Fixpoint mgsm_loop_on_old (status : nat -> mstatus) (ks : list nat) : list nat * option nat :=
   match ks with
   | [] => ([], None)
   | k :: r => if is_opt (status k) then ([k], Some k)
-              else let '(tried, res) := mgs_loop_on_old status r in (k :: tried, res)
+              else let '(tried, res) := mgsm_loop_on_old status r in (k :: tried, res)
   end.
-Definition mgs_loop_old (status : nat -> mstatus) (lowerbound n_initial : nat) : list nat * option nat :=
-  mgs_loop_on_old status (mgs_range_old lowerbound n_initial).
+Definition mgsm_loop_old (status : nat -> mstatus) (lowerbound n_initial : nat) : list nat * option nat :=
+  mgsm_loop_on_old status (mgsm_range_old lowerbound n_initial).
 
 (* self.weight_type(value): int() truncates toward zero, float() is the identity *)
 Definition py_int (q : Q) : Z := Z.quot (Qnum q) (Zpos (Qden q)).
